@@ -4,13 +4,16 @@ spec:   spec/Steady.tla (actions Copy, FreezeExogenous, Run, Judge, Install, Rej
         C15_AcceptedIsSteady, C15_OtherwiseRaises; action property C15_LeavesSolverUntouched).  A series is
         abstracted to the class of its final two values of the search run: magnitudes
         {nL, ne, z, pe, pL} (near-zero threshold 1e-4) x drift {zero, small, rel_small, large} in units of
-        the tolerance.
+        the tolerance, plus - where both values are near zero and the drift is large - whether the next value
+        stays below the threshold.  Two AsFound constants: the signed relative test (repaired in /repo) and the
+        near-zero branch that accepts any drift inside the band.
 TLC:    exhaustive check of the bounded instances; every maximal behaviour (number of variables, excluded
         set, outcome of the run, class of every variable) is emitted.
 replay: for every behaviour a REAL equation system is generated that realises the classes at a seeded
         search horizon T (ParameterInitialSteadyStateMaxTime) and tolerance tol
         (ParameterInitialSteadyStateErrorToler): one recurrence per variable through two target values
-        (prev*, last*) of the class, taken from the families
+        (prev*, last*) of the class (and, for the classes that carry the `stays` bit, with the value after
+        them inside / outside the near-zero band), taken from the families
             const       x = 1.0*LAG_x                      fixed     x = 0.5*LAG_x + c at its fixed point
             drift       x = LAG_x + d  /  x = LAG_x - d    stable    x = a*LAG_x + c        (0 < a < 1)
             grow        x = g*LAG_x (g = 1.05, ...)         osc       x = -a*LAG_x + c  (a = 0.9, 1, 1.1)
@@ -22,7 +25,8 @@ replay: for every behaviour a REAL equation system is generated that realises th
         ParameterInitialSteadyState* attributes, ExtractVariableList(), SetInitialConditions(),
         CalculateInitialSteadyState().  Observed: what the copy looked like inside _GetCopy and at its first
         SolveStep (harness-side wrappers on the instance, nothing in /repo is touched), the outcome, the
-        final two values of every series of the search, the installed k=0 values and, if the search
+        final two values of every series of the search (and the value one more period of the search's own
+        copy gives), the installed k=0 values and, if the search
         returned, ONE further real SolveStep(1) on a deep copy of the initialised solver with the user's
         exogenous inputs frozen at their k=0 values, giving the change D of every series.
 trace:  the recorded executions are judged by TLC against Steady_Trace (same operators).
@@ -34,6 +38,12 @@ Readings (the weaker one where the statement leaves a choice):
 * "re-solving one more period": the copy solves the period with the settings of the search (tolerance tol,
   1000 sweeps); the time axis k advances to 1, only the user's exogenous inputs are frozen.  No judged
   variable of a generated system depends on time.
+* The model's abstraction is that the drift class of a series persists for one more period.  An unstable
+  recurrence (x = -1.1*LAG_x + c, x = 1.05*LAG_x) whose last change lies in the window (tol/1.1, tol] moves by
+  up to 1.1*tol in the next period; no test on two values can exclude that, and the statement is not read as
+  demanding it: such border windows are not generated (a generated system whose class has drift zero / small /
+  rel_small also has its simulated next change within the tolerance).  The one class change the grid does
+  carry is a near-zero value leaving the near-zero band (`stays`).
 * "otherwise the search raises a no-equilibrium or value error" is demanded of well-formed systems; a system
   that names an undefined variable (the repository's own test expects NameError) is replayed but not judged
   on this clause.
@@ -88,10 +98,19 @@ def drift_class(prev, last, tol):
     return 'large'
 
 
-def classify(prev, last, tol):
+def classify(prev, last, tol, nxt=None):
+    """grid class of the final two values; nxt = the value one more period later (decides `stays` where the
+    class has that bit: both values near zero, large drift)"""
     if not finite(prev, last):
-        return {'prev': 'pL', 'last': 'pL', 'drift': 'large'}      # outside the grid: treated as large drift
-    return {'prev': mag(prev), 'last': mag(last), 'drift': drift_class(prev, last, tol)}
+        return {'prev': 'pL', 'last': 'pL', 'drift': 'large', 'stays': True}   # outside the grid: large drift
+    c = {'prev': mag(prev), 'last': mag(last), 'drift': drift_class(prev, last, tol), 'stays': True}
+    if near_zero(c['prev']) and near_zero(c['last']) and c['drift'] == 'large' and nxt is not None:
+        c['stays'] = bool(finite(nxt) and abs(Fraction(nxt)) < Fraction(Z))
+    return c
+
+
+def same3(a, b):
+    return all(a[k] == b[k] for k in ('prev', 'last', 'drift'))
 
 
 def steady(v0, v1, tol):
@@ -145,7 +164,7 @@ def cand_pairs(cls, tol, T):
                  'small': [tol / 4, tol / 10, tol * 0.9],
                  'rel_small': [tol * math.sqrt(a)] if a > 1 else [],
                  'large': [1.0, 3 * max(tol, tol * a), 30 * max(tol, tol * a), 0.5 * a + 2 * tol,
-                           a - a / 1.05, 2 * a]}[cls['drift']]
+                           a - a / 1.05, 2 * a, 0.3 * Z, 0.6 * Z, 1.6 * Z]}[cls['drift']]
         for df in diffs:
             df = dy(df)
             prevs += [last - df, last + df]
@@ -153,7 +172,7 @@ def cand_pairs(cls, tol, T):
             if (prev, last) in seen or not finite(prev, last):
                 continue
             seen.add((prev, last))
-            if classify(prev, last, tol) == cls:
+            if same3(classify(prev, last, tol), cls):
                 out.append((prev, last))
     return out
 
@@ -227,21 +246,23 @@ def families(name, p, q, T, allow_trend):
 
 
 def simulate(rhs, x0, T, lag):
-    """final two values of the recurrence, in the float arithmetic of eval (as the solver evaluates it)"""
+    """values at steps T-1, T and T+1 of the recurrence, in the float arithmetic of eval (the solver evaluates
+    the same text)"""
     code = compile(rhs, '<rhs>', 'eval')
     x = x0 if x0 is not None else 0.0
     prev = x
     for step in range(1, T + 1):
         prev = x
         x = eval(code, {'__builtins__': {}}, {lag: prev, 't': -float(T - step)})
-    return prev, x
+    nxt = eval(code, {'__builtins__': {}}, {lag: x, 't': 1.0})
+    return prev, x, nxt
 
 
 def realise(name, cls, T, tol, rng, allow_trend=False, max_time=5):
     """A recurrence for variable `name` whose final two values after T steps have class cls."""
     pairs = cand_pairs(cls, tol, T)
     rng.shuffle(pairs)
-    for p, q in pairs[:6]:
+    for p, q in pairs[:8]:
         fams = families(name, p, q, T, allow_trend)
         rng.shuffle(fams)
         for rname, build in fams:
@@ -267,11 +288,13 @@ def realise(name, cls, T, tol, rng, allow_trend=False, max_time=5):
                 sim_rhs = rhs.replace(gname, '(' + num(c0) + ')')
                 exo = ['%s = [%s]*2 + [%s]*%d' % (gname, num(c0), num(c1), max_time)]
             try:
-                sp, sq = simulate(sim_rhs, x0, T, lag)
+                sp, sq, sn = simulate(sim_rhs, x0, T, lag)
             except (OverflowError, ZeroDivisionError):
                 continue
-            if classify(sp, sq, tol) != cls:
+            if classify(sp, sq, tol, sn) != cls:
                 continue
+            if cls['drift'] != 'large' and not steady(sq, sn, tol):
+                continue        # border window of an unstable recurrence (see module docstring): not generated
             if b.get('no_lag'):
                 return {'recipe': rname, 'target': [p, q], 'endo': ['%s = %s' % (name, rhs)], 'init': [],
                         'exo': [], 'series': [name]}
@@ -294,9 +317,11 @@ def assemble(parts, max_time):
     return '\n'.join(lines) + '\n'
 
 
-def build_case(beh, rng, tier):
+def build_case(beh, seed, tier):
     """A real system for one behaviour of the model.  Returns a case dict, or None when no single
-    (T, tol) realises all requested classes."""
+    (T, tol) realises all requested classes.  Every behaviour has its own generator, seeded by the run's
+    seed and the behaviour itself (so neither TLC's output order nor parallel execution matters)."""
+    rng = random.Random('%d:%s' % (seed, core.canonical(beh)))
     n = beh['n']
     names = ['x%d' % (i + 1) for i in range(n)]
     max_time = rng.choice([3, 5, 10])
@@ -352,19 +377,20 @@ CANONICAL = [('LAG_x1 - 1.0', -1000.0), ('LAG_x1 + 1.0', 1000.0), ('LAG_x1 - 1.0
              ('LAG_x1 + 1.0', 0.0), ('LAG_x1 - 1.0', 0.0), ('1.05*LAG_x1', 1.0), ('1.05*LAG_x1', -1.0),
              ('0.5*LAG_x1 + 50.0', 0.0), ('0.5*LAG_x1 - 50.0', 0.0), ('0.5*LAG_x1', 1.0), ('0.5*LAG_x1', -1.0),
              ('-0.9*LAG_x1 + 19.0', 0.0), ('-0.9*LAG_x1 - 19.0', 0.0), ('-1.0*LAG_x1', 10.0), ('-1.0*LAG_x1', -10.0),
-             ('-1.0*LAG_x1', 0.0), ('-1.1*LAG_x1 + 2.1', 1.5), ('LAG_x1 + 0.0', -1000.0)]
+             ('-1.0*LAG_x1', 0.0), ('-1.1*LAG_x1 + 2.1', 1.5), ('LAG_x1 + 0.0', -1000.0),
+             ('LAG_x1 + 3e-05', -0.00052), ('LAG_x1 - 8e-05', 0.00152), ('LAG_x1 + 0.00016', -0.00312)]
 
 
 def canonical_cases(tier):
     """The systems named in the property's description, at fixed (T, tol); the class is computed."""
-    grid = [(20, 1e-4), (5, 1e-2), (30, 1e-6)]
+    grid = [(20, 1e-4), (5, 1e-2), (30, 1e-6), (20, 1e-6)]
     if tier != 'quick':
         grid += [(200, 1e-4), (137, 1e-3), (61, 1e-5)]
     out = []
     for rhs, x0 in CANONICAL:
         for T, tol in grid:
-            sp, sq = simulate(rhs, x0, T, 'LAG_x1')
-            cls = classify(sp, sq, tol)
+            sp, sq, sn = simulate(rhs, x0, T, 'LAG_x1')
+            cls = classify(sp, sq, tol, sn)
             beh = {'n': 1, 'excluded': [], 'wf': True, 'runres': 'ok', 'cls': [cls], 'canonical': True}
             text = 'x1 = %s\nLAG_x1 = x1(k-1)\nx1(0) = %s\nexogenous\nMaxTime = 5\n' % (rhs, num(x0))
             out.append({'behaviour': beh, 'T': T, 'max_time': 5, 'wf': True, 'want': 'ok', 'tol': tol, 'text': text,
@@ -461,6 +487,18 @@ def execute(case):
                 finals = dict((v, (inner.TimeSeries[v][-2], inner.TimeSeries[v][-1])) for v in names)
         except Exception:
             complete = False
+    nxt = {}
+    if complete:
+        # the search's own copy, one more period: the value after `last` (decides the `stays` bit of a class)
+        try:
+            c2 = copy.deepcopy(inner)
+            c2.__dict__.pop('SolveStep', None)
+            for v, dummy in c2.Parser.Exogenous:
+                c2.TimeSeries[v] = list(c2.TimeSeries[v]) + [1.0 if v == 'k' else c2.TimeSeries[v][-1]]
+            c2.SolveStep(T + 1)
+            nxt = dict((v, c2.TimeSeries[v][T + 1]) for v in names)
+        except Exception:
+            nxt = {}
     if complete:
         res = 'ok'
     elif type(exc).__name__ == 'ValueError' and 'No convergence in initial equilibrium' in str(exc):
@@ -493,7 +531,7 @@ def execute(case):
     fs = obs.get('freeze_same', final_same)
     events.append(dict({'ev': 'Freeze', 'frozen': bool(obs.get('frozen', False)),
                         'hor_ok': bool(obs.get('hor_ok', False))}, **fs))
-    classes = [classify(finals[v][0], finals[v][1], tol) for v in names] if res == 'ok' else []
+    classes = [classify(finals[v][0], finals[v][1], tol, nxt.get(v)) for v in names] if res == 'ok' else []
     events.append(dict({'ev': 'Run', 'res': res, 'want': case['want'], 'cls': classes}, **final_same))
     if res == 'ok':
         for i, v in enumerate(names):
@@ -527,19 +565,30 @@ def signature(clause, case, events):
         out = [e for e in events if e['ev'] == 'Outcome'][0]
         return 'search-raises:' + (out['exc'].split(':')[0] or 'unknown')
     if clause == 'C15_AcceptedIsSteady':
+        # name the cause: among the non-excluded series of the accepted system, the class whose acceptance is
+        # least defensible (a system is accepted only if every series passes, so one such series is the cause)
         run = [e for e in events if e['ev'] == 'Run'][0]
+        tags = []
         for e in events:
-            if e['ev'] == 'Judge' and not e['excl'] and not e['steady']:
-                c = run['cls'][e['idx'] - 1]
-                if c['drift'] == 'large' and c['last'] == 'nL':
-                    return 'signed-relative-test:negative-value-with-large-drift-accepted'
-                if c['drift'] == 'large' and c['last'] == 'pL':
-                    return 'relative-test:positive-value-with-large-drift-accepted'
-                if c['drift'] == 'large' and near_zero(c['last']) and not near_zero(c['prev']):
-                    return 'near-zero-test:accepted-although-previous-value-is-not-near-zero'
-                if c['drift'] == 'large' and near_zero(c['last']) and near_zero(c['prev']):
-                    return 'near-zero-band:accepted-inside-the-band-but-the-next-value-leaves-it'
-                return 'accepted-unsteady:%s:%s:%s' % (c['prev'], c['last'], c['drift'])
+            if e['ev'] != 'Judge' or e['excl']:
+                continue
+            c = run['cls'][e['idx'] - 1]
+            if c['drift'] != 'large':
+                if not e['steady']:
+                    tags.append((6, 'accepted-unsteady:%s:%s:%s' % (c['prev'], c['last'], c['drift'])))
+            elif c['last'] == 'pL' and c['prev'] != 'pL':
+                tags.append((1, 'relative-test:positive-value-accepted-although-the-previous-one-differs-in-sign-or-'
+                             'size:%s:%s' % (c['prev'], c['last'])))
+            elif c['last'] == 'nL':
+                tags.append((2, 'signed-relative-test:negative-value-with-large-drift-accepted'))
+            elif c['last'] == 'pL':
+                tags.append((3, 'relative-test:positive-value-with-large-drift-accepted'))
+            elif not near_zero(c['prev']):
+                tags.append((4, 'near-zero-test:accepted-although-previous-value-is-not-near-zero'))
+            elif not e['steady']:
+                tags.append((5, 'near-zero-band:accepted-inside-the-band-but-the-next-value-leaves-it'))
+        if tags:
+            return min(tags)[1]
         return 'further-step-raises'
     return clause
 
@@ -549,17 +598,36 @@ def nontrivial(case):
     return b['runres'] == 'ok' and any(c['drift'] != 'zero' for c in b['cls'])
 
 
-def _pool_map(cases):
-    if len(cases) < 400:
-        return [execute(c) for c in cases]
+def _work(item):
+    """item = ('case', case) | ('beh', behaviour, seed, tier)  ->  (case or None, events or None)"""
+    if item[0] == 'case':
+        return item[1], execute(item[1])
+    case = build_case(item[1], item[2], item[3])
+    if case is None:
+        return None, None
+    return case, execute(case)
+
+
+def _pool_map(items):
+    if len(items) < 200:
+        return [_work(x) for x in items]
     ctx = multiprocessing.get_context('fork')
     with concurrent.futures.ProcessPoolExecutor(max_workers=8, mp_context=ctx) as ex:
-        return list(ex.map(execute, cases, chunksize=100))
+        return list(ex.map(_work, items, chunksize=50))
 
 
-def judge(rep, cases, stats=None):
+def judge(rep, items, stats=None):
+    """build (where needed) and execute the items, validate the traces, file the verdicts;
+    returns the number of behaviours no system could be generated for"""
     stats = stats if stats is not None else {}
-    observed = _pool_map(cases)
+    done = _pool_map(items)
+    unreal = sum(1 for c, e in done if c is None)
+    cases = [c for c, e in done if c is not None]
+    observed = [e for c, e in done if c is not None]
+    for c in cases:
+        for r in c['recipes']:
+            stats.setdefault('recipes', {})
+            stats['recipes'][r] = stats['recipes'].get(r, 0) + 1
     traces = []
     for i, (c, evs) in enumerate(zip(cases, observed)):
         if evs and 'machinery' in evs[0]:
@@ -567,7 +635,8 @@ def judge(rep, cases, stats=None):
         traces.append((i, evs))
         rep.add_case({'system': c, 'observed': evs} if i < 3 else c, nontrivial(c))
         out = evs[-1]['outcome']
-        stats[out] = stats.get(out, 0) + 1
+        stats.setdefault('outcomes', {})
+        stats['outcomes'][out] = stats['outcomes'].get(out, 0) + 1
     verdicts, st, tr = core.validate_traces('MC_Steady_Trace', 'MC_Steady_Trace.cfg', traces, tag='c15', chunk=700)
     rep.traces += len(traces)
     rep.extra['trace_validation_states'] = rep.extra.get('trace_validation_states', 0) + st
@@ -584,7 +653,7 @@ def judge(rep, cases, stats=None):
                             json.dumps([e for e in traces[i][1] if e['ev'] in ('Judge', 'Outcome')])[:600]))
         else:
             rep.add_drift(clause, full)
-    return stats
+    return unreal
 
 
 INSTANCES = {
@@ -606,15 +675,15 @@ def run(rep):
                        'the sweeps of one period end exactly), no judged variable depends on time',
                        'steady is evaluated with exact rationals of the observed floats; relative = relative to the '
                        'larger magnitude; the further period is solved with the tolerance and sweep cap of the search',
+                       'border windows of unstable recurrences (last change within tol, next change up to 1.1*tol) are '
+                       'not generated',
                        'grid combinations that no single tolerance in {1e-2..1e-6} realises are counted in '
                        'unrealisable_combinations and not replayed',
                        'TLC 1.8 / tla2tools; the 3-variable full grid is model-checked exhaustively but replayed '
                        'only on a sub-grid (thorough)']
-    rng = random.Random(rep.seed)
     seen = set()
     stats = {}
     unreal = 0
-    recipes = {}
     if rep.tier != 'quick':
         res = core.tlc('MC_Steady', 'MC_Steady_thorough3.cfg', workers=4, tag='c15', want_printed=False)
         if res.violated:
@@ -634,21 +703,16 @@ def run(rep):
                 behs.append(b)
         if not behs:
             raise core.MachineryError('TLC emitted no behaviours for ' + cfg)
-        behs.sort(key=core.canonical)            # the order of TLC's output must not influence the seeded choices
-        cases = canonical_cases(rep.tier) if first else []
+        behs.sort(key=core.canonical)
+        items = [('case', c) for c in canonical_cases(rep.tier)] if first else []
         first = False
-        for b in behs:
-            c = build_case(b, rng, rep.tier)
-            if c is None:
-                unreal += 1
-                continue
-            for r in c['recipes']:
-                recipes[r] = recipes.get(r, 0) + 1
-            cases.append(c)
-        judge(rep, cases, stats)
-    rep.extra['outcomes'] = stats
+        items += [('beh', b, rep.seed, rep.tier) for b in behs]
+        unreal += judge(rep, items, stats)
+    rep.extra['outcomes'] = stats.get('outcomes', {})
     rep.extra['unrealisable_combinations'] = unreal
-    rep.extra['recipes_used'] = recipes
+    if unreal:
+        rep.exhaustive = False
+    rep.extra['recipes_used'] = stats.get('recipes', {})
     rep.extra['behaviours_emitted'] = len(seen)
 
 
@@ -657,7 +721,7 @@ def replay(path):
         data = json.load(f)
     case = data['case']['system']
     rep = core.Report('C15', 'quick', 0)
-    judge(rep, [case])
+    judge(rep, [('case', case)])
     print(json.dumps({'system': case, 'observed_now': execute(case)}, indent=1))
     for v in rep.violations:
         print('VIOLATION property=C15 replay=%s' % path)
